@@ -112,6 +112,13 @@ def run(rep, tier):
     ok, why = _memfrob_shape(F, fn)
     rep.ob(rb, "memfrob", ok, "memfrob XORs exactly the bytes ptr+i, i in 0..len, with 0x2a and returns 0",
            expected="for i in 0..len: *(ptr+i as *mut u8) ^= 42; 0", found=why)
+    # R19.c bpf_trace_printf: the returned count is the length of the fixed text plus the exact number of
+    # hex digits of each printed argument (an integer computation; a floating-point logarithm is not exact)
+    rc = rep.rule("R19.c", "bpf_trace_printf returns len(fixed text) + exact hex-digit count of each printed argument", floor=2)
+    okc, foundc = _trace_printf_count(F)
+    for kk, (okk, ff) in foundc.items():
+        rep.ob(rc, kk, okk, "bpf_trace_printf: %s" % kk, expected={"digits": "1 for 0, else ilog(16)+1 (or (64 - leading_zeros + 3) / 4)", "fixed-text": "the println! template with each hole replaced by `0x`, plus the newline"}[kk], found=ff)
+
     rep.trust("rustc front end / MIR", "f64 arithmetic of the platform (sqrt, log)", "std thread-locals and hashing used by rand")
     rep.assume("pointer preconditions of memfrob / strcmp as documented")
 
@@ -121,6 +128,100 @@ def _sh(t):
         return T.show(t)
     except Exception:
         return repr(t)[:120]
+
+
+def _trace_printf_count(F):
+    import re as _re
+    path = "helpers::bpf_trace_printf"
+    fn = F.fns.get(path)
+    out = {"digits": (False, "missing"), "fixed-text": (False, "missing")}
+    if not fn or not fn.get("thir"):
+        return False, out
+    # the closure that sizes one argument
+    clos = [p for p in F.fns if p.startswith(path + "::{closure") and F.fns[p].get("thir")]
+    ev = symex.Evaluator(F)
+    x = T.V("x", 64)
+    good, found = False, "%d closures" % len(clos)
+    if len(clos) == 1:
+        tys = repr(F.fns[clos[0]]["thir"]["body"])
+        uses_float = "'f64'" in tys or "'f32'" in tys
+        outs = ev.run_fn(clos[0], [x]) or []
+        zero = [v for v, s in outs if T.cmp("eq", 64, T.K(64, 0), x) in s.conds or T.cmp("eq", 64, x, T.K(64, 0)) in s.conds]
+        nonz = [v for v, s in outs if T.cmp("ne", 64, T.K(64, 0), x) in s.conds or T.cmp("ne", 64, x, T.K(64, 0)) in s.conds]
+        def is_ilog16(v):
+            # 1 + zext(ilog(x, 16))  |  1 + ilog2(x) / 4  |  (67 - leading_zeros(x)) / 4
+            txt = _sh(v)
+            return bool(_re.fullmatch(r"add64\(1, zext64\(core::num::<impl u64>::ilog\(x, 0x10\)\)\)", txt) or
+                        _re.fullmatch(r"add64\(1, udiv64\(zext64\(core::num::<impl u64>::ilog2\(x\)\), 4\)\)", txt) or
+                        _re.fullmatch(r"add64\(1, zext64\(udiv32\(core::num::<impl u64>::ilog2\(x\), 4\)\)\)", txt) or
+                        _re.fullmatch(r"udiv64\(sub64\(0x43, zext64\(core::num::<impl u64>::leading_zeros\(x\)\)\), 4\)", txt) or
+                        _re.fullmatch(r"udiv64\(add64\(0x43, neg64\(zext64\(core::num::<impl u64>::leading_zeros\(x\)\)\)\), 4\)", txt))
+        good = not uses_float and len(zero) == 1 and zero[0] == T.K(64, 1) and len(nonz) == 1 and is_ilog16(nonz[0])
+        found = {"floating point": uses_float, "x == 0": [_sh(v) for v in zero], "x != 0": [_sh(v)[:90] for v in nonz]}
+        if not good and not uses_float:
+            lp = _digit_loop(F, ev, clos[0])
+            if lp is True:
+                good, found = True, "digit-counting loop: d = 1; while x >= 16 { x /= 16; d += 1 }"
+            elif lp:
+                found = dict(found, loop=lp)
+    out["digits"] = (good, found)
+    # the fixed text
+    tmpl = None
+    lits = []
+    for n in walk(fn["thir"]["body"]):
+        if n.get("k") == "call" and n.get("snip") and "println" in (n.get("snip") or "")[:12]:
+            m = symex._FMT_RE.match(n["snip"])
+            if m:
+                tmpl = m.group(1)
+        if n.get("k") == "lit" and isinstance(n.get("v"), str) and "bpf_trace_printf" in n["v"]:
+            lits.append(n["v"])
+    want = None
+    if tmpl is not None:
+        want = _re.sub(r"\{[^{}]*:#x\}", "0x", tmpl) + "\n"
+    okt = want is not None and want in lits and "{" not in want
+    out["fixed-text"] = (okt, {"template": tmpl, "expected literal": want, "literals": lits})
+    return good and okt, out
+
+
+def _digit_loop(F, ev, path):
+    """True when the closure is `let mut d = 1; while x >= 16 { x /= 16 (or x >>= 4); d += 1 }; d`;
+    otherwise a description of what differs (None when there is no loop at all)"""
+    fn = F.fns[path]
+    body = fn["thir"]["body"]
+    loops = [n for n in walk(body) if n.get("k") == "loop"]
+    if len(loops) != 1:
+        return None
+    lb = strip(loops[0]["body"])
+    if lb.get("k") != "if":
+        return "loop is not a `while`"
+    owner = ev.owner_of(path)
+    # the two variables: the closure parameter and the counter
+    params = [q for q in fn["thir"]["params"] if q["pat"] and q["pat"].get("k") == "bind"]
+    lets = [st for n in walk(body) if n.get("k") == "block" for st in n["stmts"] if st["k"] == "let" and st["pat"].get("k") == "bind"]
+    if len(params) != 1 or len(lets) != 1:
+        return "expected one parameter and one counter"
+    xid, did = params[0]["pat"]["id"], lets[0]["pat"]["id"]
+    init = strip(lets[0]["init"]) if lets[0].get("init") else {}
+    if not (init.get("k") == "lit" and init.get("v") == 1):
+        return "counter does not start at 1"
+    X, D = T.V("X", 64), T.V("D", 64)
+    st = symex.St().set((owner, xid), X).set((owner, did), D)
+    conds = ev.ev_cond(lb["c"], st, path)
+    if len(conds) != 1 or conds[0][0] not in (T.cmp("ule", 64, T.K(64, 16), X), T.cmp("ult", 64, T.K(64, 15), X)):
+        return "loop guard %s (expected x >= 16)" % [_sh(c) for c, _ in conds]
+    outs = [(v, s2) for v, s2 in ev.ev(lb["t"] if "t" in lb else lb.get("then"), st, path) if s2.feasible]
+    if len(outs) != 1:
+        return "%d paths through the loop body" % len(outs)
+    s2 = outs[0][1]
+    nx, nd = s2.env.get((owner, xid)), s2.env.get((owner, did))
+    if nx not in (T.op("udiv", 64, X, T.K(64, 16)), T.shift("lshr", 64, X, T.K(64, 4))):
+        return "step x := %s" % _sh(nx)
+    if nd != T.op("add", 64, D, T.K(64, 1)):
+        return "step d := %s" % _sh(nd)
+    tail = strip(strip(body).get("tail")) if strip(body).get("k") == "block" and strip(body).get("tail") else None
+    if not (tail and tail.get("k") in ("var", "upvar") and tail.get("id") == did):
+        return "the closure does not return the counter"
+    return True
 
 
 def _strcmp_scan(F, ev):
